@@ -431,7 +431,7 @@ class ExprMixin:
                 self.side_fact(z3.Implies(ar.term > 0, r > 0))
                 self.side_fact(z3.Implies(z3.And(ar.term >= 1, b.term >= 0), r >= 1))
                 if getattr(self, "float_range_checks", True) and not self.in_pure_mode():
-                    dblmax = z3.RealVal("179769313486231570000000000000000000000000000000000000000000000000000000000000000000000000000000000000000000000000000000000000000000000000000000000000000000000000000000000000000000000000000000000000000000000000000000000000000000000000000000000000000000000000000000000000000000000000000000000")
+                    dblmax = z3.RealVal(repr(1.7976931348623157e308))  # sys.float_info.max (as the decimal literal)
                     in_range = z3.And(r <= dblmax, r >= -dblmax)
                     catchers = {"OverflowError", "ArithmeticError", "Exception", "BaseException"}
                     if any(catchers & set(hs) or not hs for hs in getattr(self, "try_handlers", [])):
